@@ -216,7 +216,25 @@ class Real:
     a = arr(xs)
     before = a.tobytes()
     w = self.factories[op]()
-    res = {'out': None, 'exc': None, 'alias': [], 'shape_ok': True}
+    # Every other call per operation uses an instance that has ALREADY warped another label array (the
+    # previous input of this operation): GP designers keep one warper and call it at every suggest and
+    # for every metric column, so what a warper returns must depend on its argument only.
+    calls = getattr(self, '_calls', None)
+    if calls is None:
+      calls = self._calls = {}
+      self._prev = {}
+    calls[op] = calls.get(op, 0) + 1
+    prev = self._prev.get(op)
+    self._prev[op] = list(xs)
+    self.reused = False
+    if prev is not None and calls[op] % 2 == 0 and not keep:
+      try:
+        with np.errstate(all='ignore'):
+          w.warp(arr(prev))
+        self.reused = True
+      except Exception:  # pylint: disable=broad-except
+        w = self.factories[op]()
+    res = {'out': None, 'exc': None, 'alias': [], 'shape_ok': True, 'reused_instance': self.reused}
     try:
       with np.errstate(all='ignore'):
         out = w.warp(a)
